@@ -363,7 +363,7 @@ def check(pid, tier, seed):
             return 1
         return 0
     finally:
-        shutil.rmtree(work, ignore_errors=True)
+        if not os.environ.get("VERIF_KEEP_WORK"): shutil.rmtree(work, ignore_errors=True)
 
 
 def setup():
